@@ -171,3 +171,9 @@ func CountReach(hi *Hist, faults, probes map[string]int64) {
 		probes["outcome_"+res.Outcome.String()]++
 	}
 }
+
+// OracleProbes counts how often oracle-side checks were actually exercised
+// (reach probes of the oracles themselves); merged into the batch's probes.
+var OracleProbes = map[string]int64{}
+
+func note(name string) { OracleProbes[name]++ }
